@@ -63,6 +63,11 @@ def build(cname):
                 self.parent, self.name = parent, name
                 self.inited = True
 
+            def __setattr__(self, k, v):
+                # the class has its own attribute hook: what it does must not depend on earlier loads
+                object.__setattr__(self, k, v)
+                object.__setattr__(self, 'sets', getattr(self, 'sets', 0) + 1)
+
         class Group:
             def __init__(self, parent=None, name=None, defs=None, groups=None):
                 self.parent, self.name, self.defs, self.groups = parent, name, defs, groups
@@ -109,7 +114,7 @@ def dump(v, depth=0):
                 items.append((k, [None if y is None else [type(y).__name__, getattr(y, 'name', None)] for y in xs]))
             else:
                 items.append((k, dump(x, depth + 1)))
-        extra = sorted(k for k in getattr(v, '__dict__', {}) if k in ('processed', 'inited', 'validated'))
+        extra = sorted((k if k != 'sets' else 'sets=%d' % v.__dict__['sets']) for k in getattr(v, '__dict__', {}) if k in ('processed', 'inited', 'validated', 'sets'))
         return [cls.__name__, sorted(items, key=lambda t: t[0]), extra]
     if isinstance(v, list):
         return ['list'] + [dump(x, depth + 1) for x in v]
